@@ -33,12 +33,23 @@ def row(name, x):
     return "| %s | %s | %s | %s | %s |" % (name.replace("seeded_", ""), why(name)[:150].replace("|", "/"), fired or "-", first[:40], missed or "")
 
 
+import sys
+lines = []
 for title, pred in (("Changes seeded by independent sub-agents (all 20 quick checks run against each)", lambda n: n.startswith("seeded_")),
                     ("Reverse patches of the repairs (checks named in the patch header)", lambda n: n.startswith("revert_")),
                     ("Handcrafted mutants (checks named in the patch header)", lambda n: n.startswith("m"))):
-    print("\n**%s**\n" % title)
-    print("| change | what it is / what it needs | checks that fire | first monitor | expected but silent |")
-    print("|---|---|---|---|---|")
+    lines.append("\n**%s**\n" % title)
+    lines.append("| change | what it is / what it needs | checks that fire | first monitor | expected but silent |")
+    lines.append("|---|---|---|---|---|")
     for name in sorted(r):
         if pred(name) and r[name].get("applied"):
-            print(row(name, r[name]))
+            lines.append(row(name, r[name]))
+
+out = "\n".join(lines) + "\n"
+if "--write" in sys.argv:
+    d = os.path.join(V, "DESIGN.md")
+    t = open(d).read()
+    a, b = t.index("<!-- MATRIX BEGIN -->") + len("<!-- MATRIX BEGIN -->"), t.index("<!-- MATRIX END -->")
+    open(d, "w").write(t[:a] + "\n" + out + t[b:])
+else:
+    print(out)
